@@ -554,7 +554,9 @@ func init() {
 			// node kinds in the opposite order (lists, where "..." is legal, first) for every name
 			revKinds := []ref.Kind{ref.L, ref.A, ref.BOOLEAN, ref.B, ref.F8, ref.U4, ref.I2}
 			sp = append(sp, h.Space{Name: "variable-names-lists-first", Count: uint64(len(names)), ChunkHint: 4096,
-				Describe: func(i uint64) interface{} { return fmt.Sprintf("name %q in a list, then in every other node kind", names[i]) },
+				Describe: func(i uint64) interface{} {
+					return fmt.Sprintf("name %q in a list, then in every other node kind", names[i])
+				},
 				Run: func(c *h.Ctx, i uint64) {
 					name := names[i]
 					for _, k := range revKinds {
